@@ -115,7 +115,103 @@ Inductive case :=
            (ordered : bool)        (* false: concurrent saves, publication order unknown to the harness *)
            (obs_lens : list (option N))
            (obs_versions : list (option data))
-           (saves : list sobs).
+           (saves : list sobs)
+  (* Round 5 (I): list downloads overlapping in time on one DNSFilter, their
+     bodies delivered chunk by chunk in an order the harness controls.  Per
+     list: id; chunks; cut (the body ends in an error instead of EOF); entry
+     point (0 periodic refresh of a loaded list: the checksum in memory is
+     that of the stored file; 1 add_url: new id, no file, checksum 0; 2
+     set_url with a new URL: unloaded, checksum 0, a list without rules loses
+     its file); the file before.  [sched]: the list that moves, step by step
+     (first step of a list = its download starts and takes a buffer; then one
+     Read result per step, the last being EOF / the error).  [obs]: the file
+     of each list when all calls have returned.  Bytes. *)
+  | COverlap (lists : list (N * list data * bool * N * option data)) (sched : list N)
+             (obs : list (N * option data))
+  (* Round 5 (J): one filterSetProperties call.  File before; the entry's
+     enabled flag and whether its checksum describes the file (else 0); the
+     request (URL changes / is taken / enabled afterwards); the source (can be
+     opened, chunks, cut); fault (0 none, 1 the temporary file cannot be
+     created); observed: error reported, restart flag, file afterwards. *)
+  | CSetUrl (old : option data) (enabled loaded : bool) (url_changes taken new_enabled : bool)
+            (src_ok : bool) (chunks : list data) (cut : bool) (fault : N)
+            (obs_err obs_restart : bool) (obs_file : option data).
+
+
+(** *** Round 5: the list scenarios (bytes; the line processor [simple_pl]
+    for the fragment of list syntax these scenarios generate) *)
+
+Definition l_feed := buf_feed bool simple_pl.
+Definition l_finish := buf_finish bool simple_pl.
+Definition l_st0 : bst bool := (false, []).
+Definition l_update := update_list (bst bool) l_st0 l_feed l_finish big_sum.
+Definition l_set := set_props (bst bool) l_st0 l_feed l_finish big_sum.
+Definition osum (o : option data) : N := match o with Some c => big_sum c | None => 0 end.
+Definition oboot (o : option data) : fs := boot (match o with Some c => [(1, c)] | None => [] end).
+Definition plan_of (fault : N) : plan :=
+  {| p_open := fault =? 1; p_write := None; p_sync := false; p_close := false; p_rename := false |}.
+
+(** The file a list has when its call has returned, by the LONE download of
+    the model (entry points 0, 1: DNSFilter.update; 2: filterSetProperties
+    with a new URL on an enabled list). *)
+Definition lone_file (r : reader) (kind : N) (old : option data) : option data :=
+  let s := oboot old in
+  if kind =? 2 then
+    let x := l_set true s {| e_url := 7; e_enabled := true; e_sum := osum old |} false
+                   {| q_url := 8; q_enabled := true |} 3 2 1 true r no_faults false in
+    live_view (run s (fst (fst x))) 1
+  else
+    live_view (run s (fst (l_update 3 2 1 true r (osum old) no_faults))) 1.
+
+Definition eqb_ldata : list data -> list data -> bool := eqb_list eqb_bytes.
+
+Definition overlap_inputs (lists : list (N * list data * bool * N * option data)) : amap reader :=
+  map (fun l => match l with (id, ch, cut, _, _) => (id, serve ch cut) end) lists.
+
+Definition overlap_world (lists : list (N * list data * bool * N * option data)) (sched : list N) :=
+  prun bool simple_pl false (pinit bool false (overlap_inputs lists)) sched.
+
+(** 1 every download of the schedule has ended, with the writes and the end
+    of the lone download ([C14_overlapping_saves_independent] says so for the
+    model; evaluated all the same); 2 every list's file is what the lone
+    download leaves: its own complete normal form, or the previous version;
+    3 one observation per list. *)
+Definition overlap_checks (lists : list (N * list data * bool * N * option data)) (sched : list N)
+           (obs : list (N * option data)) : list bool :=
+  let w := overlap_world lists sched in
+  [ forallb (fun l => match l with (id, ch, cut, _, _) =>
+               match saver_result bool w id with
+               | Some (ws, ok) => let (ws', ok') := pump (bst bool) l_feed l_finish l_st0 (serve ch cut) in
+                                  eqb_ldata ws ws' && Bool.eqb ok ok'
+               | None => false
+               end end) lists;
+    forallb (fun l => match l with (id, ch, cut, kind, old) =>
+               match aget obs id with
+               | Some f => eqb_option eqb_bytes f (lone_file (serve ch cut) kind old)
+               | None => false
+               end end) lists;
+    Nat.eqb (length obs) (length lists) ].
+
+Definition seturl_model (old : option data) (enabled loaded url_changes taken new_enabled src_ok : bool)
+           (chunks : list data) (cut : bool) (fault : N) :=
+  l_set true (oboot old) {| e_url := 7; e_enabled := enabled; e_sum := if loaded then osum old else 0 |} taken
+        {| q_url := if url_changes then 8 else 7; q_enabled := new_enabled |} 3 2 1 src_ok (serve chunks cut)
+        (plan_of fault) false.
+
+(** 1 error reported as the model says; 2 restart flag (successful calls); 3
+    the file afterwards; 4 a call reporting an error made only operations the
+    checker accepts and dst never stopped naming a file
+    ([C14_failed_set_url_keeps_file]). *)
+Definition seturl_checks (old : option data) (enabled loaded url_changes taken new_enabled src_ok : bool)
+           (chunks : list data) (cut : bool) (fault : N) (obs_err obs_restart : bool) (obs_file : option data)
+  : list bool :=
+  let s := oboot old in
+  let x := seturl_model old enabled loaded url_changes taken new_enabled src_ok chunks cut fault in
+  let ops := fst (fst x) in
+  [ match snd (fst x) with SetErr => obs_err | SetOk _ => negb obs_err end;
+    match snd (fst x) with SetErr => true | SetOk r => obs_err || Bool.eqb r obs_restart end;
+    eqb_option eqb_bytes obs_file (live_view (run s ops) 1);
+    match snd (fst x) with SetErr => trace_safe 1 s ops && dst_stays 1 s ops | SetOk _ => true end ].
 
 Definition eqb_odata := eqb_option eqb_bytes.
 Definition mem_odata (v : option data) (l : list (option data)) := existsb (eqb_odata v) l.
@@ -147,25 +243,46 @@ Definition checks (c : case) : list bool :=
         (if bm then forallb (fun v => mem_odata v av) (visible_states s t dst) else true);
         dst_stays dst s t;
         replay dst saves t ]
+  | COverlap lists sched obs => overlap_checks lists sched obs
+  | CSetUrl old en ld uc tk ne so ch cut fl oe orr ofile => seturl_checks old en ld uc tk ne so ch cut fl oe orr ofile
   end.
 
 Definition case_ok (c : case) : bool := forallb (fun b => b) (checks c).
 
 Definition mismatches := Base.Run.mismatches case_ok.
 
-(** For replay files: the seven verdicts, the index of the first unsafe
-    operation, the index of the first operation after which dst is gone, the
-    index of the first save the save model does not reproduce, the
+(** For replay files.  Traces: the seven verdicts, the index of the first
+    unsafe operation, the index of the first operation after which dst is
+    gone, the index of the first save the save model does not reproduce, the
     names left over, and (byte mode) the visible states that are not a
-    published version. *)
-Definition explain (c : case) :=
+    published version.  Overlap: verdicts, per list the model's writes and
+    end, per list the file the lone download leaves.  set_url: verdicts, the
+    model's operations, error, restart, file. *)
+Inductive expl :=
+  | XTrace (x : list bool * option N * option N * option N * list path * list (option N) * list (option data))
+  | XOverlap (verdicts : list bool) (results : list (N * option (list data * bool))) (files : list (N * option data))
+  | XSetUrl (verdicts : list bool) (ops : list op) (err : bool) (restart : option bool) (file : option data).
+
+Definition explain (c : case) : expl :=
   match c with
   | CTrace dst keep ents t bm ord lens vers saves =>
       let s := boot ents in
       let av := all_versions s t dst in
+      XTrace
       (checks c, first_unsafe dst s t 0, first_absent dst s t 0, first_bad_save dst saves t 0,
        filter (fun p => match aget (dir_cur (run s t)) p with Some _ => negb (existsb (N.eqb p) (dst :: keep)) | None => false end)
               (created s t),
        map (option_map (byte_len bm)) av,
        if bm then filter (fun v => negb (mem_odata v av)) (visible_states s t dst) else [])
+  | COverlap lists sched obs =>
+      let w := overlap_world lists sched in
+      XOverlap (checks c)
+               (map (fun l => match l with (id, _, _, _, _) => (id, saver_result bool w id) end) lists)
+               (map (fun l => match l with (id, ch, cut, kind, old) => (id, lone_file (serve ch cut) kind old) end) lists)
+  | CSetUrl old en ld uc tk ne so ch cut fl oe orr ofile =>
+      let x := seturl_model old en ld uc tk ne so ch cut fl in
+      XSetUrl (checks c) (fst (fst x))
+              (match snd (fst x) with SetErr => true | SetOk _ => false end)
+              (match snd (fst x) with SetErr => None | SetOk r => Some r end)
+              (live_view (run (oboot old) (fst (fst x))) 1)
   end.
